@@ -140,6 +140,8 @@ func (l *l1) step(ops []kit.Op) (*stepInfo, *mismatch) {
 		case implErr < len(ops) && implErr < len(model.Results) && model.Results[implErr].MayReject != "" && model.Results[implErr].Err == "":
 			info.Tolerated = model.Results[implErr].MayReject
 			return info, nil
+		case model.FailedAt >= 0 && model.PreValidation:
+			return info, nil
 		case model.FailedAt >= 0:
 			if implErr != model.FailedAt {
 				return info, mm("result.error-position", "operation %d failed (%q), model expects operation %d to fail (%s %s)", implErr, got, model.FailedAt, model.Results[model.FailedAt].Err, model.Results[model.FailedAt].Detail)
